@@ -1,7 +1,7 @@
 """C09 — Padding: exact message||pad in full blocks, true bit counts, unpad inverts pad.
 
 run_impl drives the real generator objects of crysp/padding.py step by step (next(), reading bitcnt/padcnt/padflag of
-the object after every yield).  check_impl is the property's own predicate: an independent bit-level reference
+the object after every yield; histories may reuse the object through reset() / the .new property and call remove()).  check_impl is the property's own predicate: an independent bit-level reference
 (append-one-bit-at-a-time loops on Python lists, sharing no code with crysp or with the Lean Spec) plus the counter /
 block-size / block-count / refusal laws of the property, evaluated on what the implementation returned."""
 from props.common import *
@@ -9,7 +9,7 @@ from props.common import *
 ID = 'C09'
 LEAN_PROOFS = ['Proofs.C09']
 GEN_ITEMS = []
-RULE = ('op lines = (scheme, block size, word/digest size, history of iterblocks calls | single padded call | remove round trip | '
+RULE = ('op lines = (scheme, block size, word/digest size, history of iterblocks calls, reset()/.new and remove() on one object | single padded call | remove round trip | '
         'remove of an arbitrary byte string); distinct lines; non-trivial = the implementation returned a value (for pad.iter: '
         'at least one block was yielded)')
 TRUSTED = ['Model.Padding models a Python generator by the list of its yields, each paired with the object state observable at that '
@@ -72,6 +72,36 @@ def step_call(o, m, L, pad):
     return ';'.join(ys) + ('!' if err else '') + '=' + st(o), blocks, err
 
 
+def run_steps(o, steps):
+    """the steps of a pad.iter history on the real object o: iterblocks calls, `reset` (o.reset()) / `new` (the o.new
+    property), `remove [x<bytes>]` (o.remove of the given bytes or of everything emitted since the last reset)"""
+    out, emitted = [], b''
+    for c in steps:
+        if c[0] == 'reset':
+            o.reset(); emitted = b''
+            out.append('R=' + st(o))
+        elif c[0] == 'new':
+            o2 = o.new
+            if o2 is not o: raise RuntimeError('.new returned another object')
+            emitted = b''
+            out.append('R=' + st(o))
+        elif c[0] == 'remove':
+            arg = unhx(c[1]) if len(c) > 1 else emitted
+            try:
+                r = 'M' + hx(o.remove(arg))
+            except (KeyboardInterrupt, SystemExit):
+                raise
+            except Exception as e:
+                if type(e).__name__ == '_Timeout': raise
+                r = 'M!'
+            out.append(r + '=' + st(o))
+        else:
+            tr, blocks, _ = step_call(o, unhx(c[0]), unoi(c[1]), unbo(c[2]))
+            emitted += b''.join(blocks)
+            out.append(tr)
+    return out
+
+
 def parse_header(toks):
     s, B = toks[0], int(toks[1])
     w = int(toks[2]) if len(toks) > 2 else 0
@@ -94,12 +124,7 @@ def run_impl(line):
         if op == 'pad.iter':
             parts = split_bar(a)
             s, B, w = parse_header(parts[0])
-            o = mkobj(s, B, w)
-            out = []
-            for c in parts[1:]:
-                tr, _, _ = step_call(o, unhx(c[0]), unoi(c[1]), unbo(c[2]))
-                out.append(tr)
-            return '|'.join(out)
+            return '|'.join(run_steps(mkobj(s, B, w), parts[1:]))
         if op in ('pad.cat', 'pad.rt'):
             s, B, w = parse_header(a[:-2])
             m, L = unhx(a[-2]), unoi(a[-1])
@@ -205,19 +230,56 @@ def check_iter(line, res):
     bl = B // 8
     traces = res.split('|')
     if len(traces) != len(parts) - 1: return 'pad.iter: %d traces for %d calls' % (len(traces), len(parts) - 1)
-    hist = []          # message bits fed so far
+    steps = parts[1:]
+    hist = []          # message bits fed so far (since the last reset)
     final = False
     cur = (0, 0, False)   # state the object must be in
-    for i, (c, tr) in enumerate(zip(parts[1:], traces)):
+    emitted = b''      # blocks emitted since the last reset
+    inspec = True      # every call since the last reset is one the property speaks about
+    for i, (c, tr) in enumerate(zip(steps, traces)):
+        if c[0] in ('reset', 'new'):
+            # after reset()/.new the object is indistinguishable from a fresh one: counters (0,0,False) …
+            if tr != 'R=0,0,F': return bad(i, 'state after %s is %s, a fresh object has 0,0,F' % (c[0], tr[2:]))
+            # … and the remaining steps give what a FRESH real object gives
+            fresh = guarded(lambda: '|'.join(run_steps(mkobj(s, B0, w), steps[i + 1:])))
+            if fresh != '|'.join(traces[i + 1:]):
+                ft = fresh.split('|')
+                for j in range(i + 1, len(steps)):
+                    if j - i - 1 >= len(ft) or ft[j - i - 1] != traces[j]:
+                        return bad(j, 'after %s at step %d the object gives %s, a fresh object gives %s'
+                                   % (c[0], i, traces[j][-60:], ft[j - i - 1][-60:] if j - i - 1 < len(ft) else fresh))
+            hist, final, cur, emitted, inspec = [], False, (0, 0, False), b'', True
+            continue
+        if c[0] == 'remove':
+            if not tr.startswith('M') or '=' not in tr: return bad(i, 'malformed remove trace')
+            body, fin = tr[1:].rsplit('=', 1)
+            bc, pc, pf = fin.split(',')
+            if (int(bc), int(pc), pf == 'T') != cur: return bad(i, 'remove changed the state')
+            arg = unhx(c[1]) if len(c) > 1 else emitted
+            if not inspec: continue
+            if not final and s in ('no', 'null') and len(arg) > 0:
+                # no pad bit was added to this message: nothing may be stripped
+                if body != hx(arg): return bad(i, 'remove() on a message without pad stripped bytes: %s' % body[-40:])
+            elif final and len(c) == 1:
+                exp = hx(bytes_of(hist))
+                if body != exp: return bad(i, 'remove() of the padded message gives %s, the message is %s' % (body[-40:], exp[-40:]))
+            continue
         m, L, pad = unhx(c[0]), unoi(c[1]), unbo(c[2])
         ys, fin, err = parse_trace(tr)
+        emitted += b''.join(y[0] for y in ys)
         Leff = 8 * len(m) if L is None else L
         refuse = final or Leff > 8 * len(m) or (not pad and Leff % B)
         if refuse:
             if not err or ys: return bad(i, 'must be refused (after the pad / bitlen beyond the data / unpadded non-multiple)')
             if fin != cur: return bad(i, 'a refused call changed the state')
             continue
-        if not in_spec_domain(s, B, w, L): return None           # byte-granular scheme with a bit length: code<->model only
+        if not in_spec_domain(s, B, w, L):
+            # byte-granular scheme with a bit length: code<->model only, until the next reset
+            if not any(x[0] in ('reset', 'new') for x in steps[i + 1:]): return None
+            inspec = False
+        if not inspec:
+            final, cur = fin[2], fin
+            continue
         fed = len(hist)
         mb = bits_of(m)[:Leff]
         if not pad:
@@ -227,7 +289,7 @@ def check_iter(line, res):
             for j, y in enumerate(ys):
                 if len(y[0]) != bl: return bad(i, 'block %d has %d bytes' % (j, len(y[0])))
                 if y[1] != fed + (j + 1) * B: return bad(i, 'bitcnt %d at block %d, expected %d' % (y[1], j, fed + (j + 1) * B))
-                if y[2] != 0 or y[3]: return bad(i, 'padcnt/padflag set by an unpadded call')
+                if y[2] != 0 or y[3]: return bad(i, 'padcnt/padflag set by an unpadded call (padcnt %d, no pad bit was added)' % y[2])
             if fin != (fed + Leff, 0, False): return bad(i, 'state after unpadded call %r' % (fin,))
             hist += mb
             cur = fin
@@ -240,7 +302,10 @@ def check_iter(line, res):
             # its own, empty, piece as ISO 9797-1 method 1 prescribes (one block of zeros)
             full = whole + ref_pad(s, B0, w, [])
         exp = bytes_of(full[fed:])
-        if err: return bad(i, 'unexpected exception (expected %d bytes)' % len(exp))
+        if err:
+            if small_block(s, B0, w) and any(x[0] in ('reset', 'new') for x in steps[i + 1:]):
+                inspec = False; final, cur = fin[2], fin; continue          # known finding C09-md-small-block; go on after the next reset
+            return bad(i, 'unexpected exception (expected %d bytes)' % len(exp))
         got = b''.join(y[0] for y in ys)
         if got != exp: return bad(i, 'concatenation %s differs from the specified %s' % (got.hex()[-80:], exp.hex()[-80:]))
         nexp = max(1, (len(exp) + bl - 1) // bl) if s == 'no' else len(exp) // bl
@@ -249,10 +314,12 @@ def check_iter(line, res):
             if len(y[0]) != bl and not (s == 'no' and j == len(ys) - 1): return bad(i, 'block %d has %d bytes' % (j, len(y[0])))
             e = fed + min(Leff, (j + 1) * B) if j * B < Leff else 0
             if y[1] != e: return bad(i, 'bitcnt %d at block %d, expected %d' % (y[1], j, e))
+            if not y[3] and y[2] != 0: return bad(i, 'padcnt %d at block %d, before any pad bit was added' % (y[2], j))
         if not fin[2] or not ys[-1][3]: return bad(i, 'padflag not set after the final block')
         npad = len(full) - len(whole)
         if s in ('no', 'null', 'bit', 'pkcs7', 'x923'):
             if fin[1] != npad or ys[-1][2] != npad: return bad(i, 'padcnt %d, %d pad bits were added' % (fin[1], npad))
+        elif fin[1] != 0: return bad(i, 'padcnt %d for a scheme that does not count pad bits' % fin[1])
         if fin != ys[-1][1:]: return bad(i, 'state changed after the last block')
         hist = whole
         final = True
@@ -420,6 +487,53 @@ def seq_lines(s, B, w, rng, n):
         yield 'pad.iter %s | %s' % (h, ' | '.join(calls)), '%s.seq' % s
 
 
+def reset_lines(s, B, w, rng, n=1):
+    """reuse of one object: a first message that leaves non-zero counters, reset()/.new, a second message fed with
+    padding=True and with padding=False, remove() where it reads the object state, a third message"""
+    h = hdr(s, B, w)
+    Be = eff_block(s, B, w); bl = Be // 8
+    firsts = []
+    # padded first calls: a short tail, one byte missing, one byte over, whole blocks (PKCS#7/X9.23/bit add a whole block), empty
+    for nb in sorted({1, max(1, bl // 2), bl - 1, bl, bl + 1, 2 * bl + max(1, bl // 2)}):
+        if nb > 0: firsts.append(['%s None T' % hx(rbytes(rng, nb, 5))])
+    firsts.append(['x None T'])
+    if s in BITGRAN:
+        nb = bl + max(1, bl // 2)
+        firsts.append(['%s %d T' % (hx(rbytes(rng, nb, 5)), 8 * nb - rng.randrange(1, 8))])
+    # unpadded pieces only (bitcnt set, no pad), pieces then a final one, a refused call
+    firsts.append(['%s None F' % hx(rbytes(rng, 2 * bl, 5))])
+    firsts.append(['%s None F' % hx(rbytes(rng, bl, 5)), '%s None T' % hx(rbytes(rng, max(1, bl - 1), 5))])
+    firsts.append(['%s None T' % hx(rbytes(rng, bl + 1, 5)), '%s None F' % hx(rbytes(rng, bl, 5))])
+    k = 0
+    for _ in range(n):
+        for f in firsts:
+            for second in ('F', 'T', 'FT'):
+                k += 1
+                rs = ('reset', 'new')[k % 2]
+                steps = list(f) + [rs]
+                if second == 'F':
+                    steps.append('%s None F' % hx(rbytes(rng, rng.choice((1, 2)) * bl, 5)))
+                elif second == 'T':
+                    nb = rng.choice((0, 1, max(1, bl // 2), bl, bl + 1, 2 * bl - 1))
+                    L = None
+                    if s in BITGRAN and nb and rng.randrange(3) == 0: L = 8 * nb - rng.randrange(0, 8)
+                    steps.append('%s %s T' % (hx(rbytes(rng, nb, 5)), oi(L)))
+                else:
+                    steps.append('%s None F' % hx(rbytes(rng, bl, 5)))
+                    steps.append('%s None T' % hx(rbytes(rng, rng.choice((1, bl, bl + 1)), 5)))
+                # remove() of what was emitted since the reset: zero padding strips padcnt bits, the others must still invert
+                if s == 'null' or second != 'F' or k % 3 == 0: steps.append('remove')
+                if s == 'null' and k % 4 == 0: steps.append('remove %s' % hx(rbytes(rng, rng.choice((1, bl, bl + 3)), 5)))
+                if k % 5 == 0:
+                    # and once more
+                    steps.append(('new', 'reset')[k % 2])
+                    steps.append('%s None %s' % (hx(rbytes(rng, bl, 5)), 'FT'[k % 2]))
+                    if s == 'null': steps.append('remove')
+                yield 'pad.iter %s | %s' % (h, ' | '.join(steps)), '%s.reset.%s' % (s, second)
+    # reset of a fresh object, reset twice
+    yield 'pad.iter %s | reset | new | %s None T | remove' % (h, hx(rbytes(rng, bl + 1, 5))), '%s.reset.fresh' % s
+
+
 def malformed_lines(tier, rng):
     alpha = lambda bl: sorted({0, 1, 2, 3, 4, 5, 255, bl, bl + 1})
     maxlen = 3 if tier == 'quick' else 4
@@ -469,6 +583,8 @@ def cases(tier, rng):
             for s, b, w in configs([B]):
                 if s == 'blake' and rng.randrange(4): continue
                 yield from seq_lines(s, b, w, rng, 2)
+                lines = list(reset_lines(s, b, w, rng))
+                yield from rng.sample(lines, 4)
                 lines = list(single_lines(s, b, w, rng, False))
                 rng.shuffle(lines)
                 yield from lines[:30]
@@ -506,6 +622,10 @@ def cases(tier, rng):
         if s == 'blake' and B != sparseB[0] and B != denseB[0]: pass
         yield from refusal_lines(s, B, w, rng)
         yield from seq_lines(s, B, w, rng, nseq)
+    # reuse of one object after reset() / .new
+    resetB = [8, 16, 64, 128, 136, 512, 1024] if tier == 'quick' else sorted(set(denseB + sparseB))
+    for s, B, w in configs(resetB):
+        yield from reset_lines(s, B, w, rng, 1 if tier == 'quick' else 2)
     yield from malformed_lines(tier, rng)
     # block sizes beyond the property's range: the theorems cover them, the model must too
     for s, B, w in (('null', 3072, 0), ('null', 4096, 0), ('pkcs7', 2040, 0), ('pkcs7', 2048, 0), ('x923', 2040, 0), ('x923', 2048, 0),
